@@ -280,3 +280,15 @@ func (p *Program) PkgOf(obj types.Object) *packages.Package {
 	}
 	return nil
 }
+
+// DepPkg returns the types.Package of a dependency (e.g. "reflect") as imported by the loaded packages.
+func (p *Program) DepPkg(path string) *types.Package {
+	for _, pkg := range p.Pkgs {
+		for ip, imp := range pkg.Imports {
+			if ip == path && imp.Types != nil {
+				return imp.Types
+			}
+		}
+	}
+	return nil
+}
